@@ -51,9 +51,13 @@ type c16Case struct {
 	// MirrorWorkers > 0: the queued datagrams go through the real dispatcher with that many mirror workers sharing
 	// its queue (the collector's default is 5) instead of through a single mirror function
 	MirrorWorkers int `json:"mirror_workers,omitempty"`
+	// SrcPorts: UDP source port of the exporter per datagram (absent: 3000+i). Any port is an exporter's good right:
+	// ephemeral ones, privileged ones, the collector's own listening ports, the ports its mirror functions send from,
+	// the mirror target's port
+	SrcPorts []int `json:"src_ports,omitempty"`
 }
 
-const c16Rule = "case = protocol (ipfix | sflow), max-udp-size 64..65507 (biased to 1500; the other protocols' size setting drawn independently), 1..4 workers, IPv4 exporter address in 4-octet or 16-octet form, mirror target 127.x.y.z:port, " +
+const c16Rule = "case = protocol (ipfix | sflow), max-udp-size 64..65507 (biased to 1500; the other protocols' size setting drawn independently), 1..4 workers, IPv4 exporter address in 4-octet or 16-octet form, exporter source ports fixed or (half of the cases) drawn per datagram from 1..65535 incl. the collector's own listening ports, the ports its mirror functions send from and the port of the target, mirror target 127.x.y.z:port, " +
 	"1..8 datagrams with lengths biased to {0, 1, size-29, size-28, size-27, size-1, size} (valid protocol messages and arbitrary octets); the real worker queues them for mirroring and the real mirror function emits them — a single one, or (half of the cases) the real dispatcher with 2..8 mirror workers sharing its queue; " +
 	"oracle on the IP packets captured on lo (filtered by the run's own target address and port) = exactly one packet per datagram, version/IHL 0x45, protocol 17, source = exporter, destination = target, " +
 	"IP total length = 28+n = captured length, UDP length = 8+n, destination port = configured, UDP checksum absent (0) or verifying (payloads incl. ones whose checksum needs two end-around carries), payload byte-identical; the driver survives; published payloads with mirroring on == with mirroring off, also when templates were learned under one mirror setting and the data arrives under the other (cache kept), and when a flood of > 1000 datagrams overflows the mirror queue (then only: nothing corrupted, nothing twice); " +
@@ -213,6 +217,12 @@ func genC16(t *rapid.T, envs map[string]*wire.GenEnv) c16Case {
 		}
 		c.Payloads = append(c.Payloads, b)
 	}
+	if rapid.Bool().Draw(t, "srcports") {
+		for range c.Payloads {
+			c.SrcPorts = append(c.SrcPorts, rapid.OneOf(rapid.IntRange(1, 65535),
+				rapid.SampledFrom([]int{1, 53, 1023, 1024, 4729, 4739, 6343, 9996, 8081, 32768, 55117, 55118, 55119, 60999, 65535, c.Port})).Draw(t, "srcport"))
+		}
+	}
 	return c
 }
 
@@ -289,7 +299,12 @@ func runC16(c *c16Case) (v verdict, sig string, err error) {
 	v.label(c.Flood > 0, "mirror-queue-overflow")
 	phase := make([]drvDatagram, 0, len(payloads))
 	for i, p := range payloads {
-		phase = append(phase, drvDatagram{Addr: hex.EncodeToString(c.Exporter), Port: 3000 + i%1000, Data: hex.EncodeToString(p)})
+		sp := 3000 + i%1000
+		if i < len(c.SrcPorts) && c.SrcPorts[i] > 0 && c.SrcPorts[i] < 65536 {
+			sp = c.SrcPorts[i]
+			v.label(true, "drawn-exporter-source-ports")
+		}
+		phase = append(phase, drvDatagram{Addr: hex.EncodeToString(c.Exporter), Port: sp, Data: hex.EncodeToString(p)})
 	}
 	target := net.IP(c.Target).String()
 	v.label(c.OtherUDPSize > 0 && c.OtherUDPSize < c.UDPSize, "other-protocols-smaller-udp-size")
